@@ -104,7 +104,19 @@ pub fn cmd_typemap() {
             .collect();
         let mut type_map = TypeMap::with_primitive_types();
         let mut module_data = ModuleData::with_builtins(); // as load_type_map() of the command line tool does
-        module_data.extend(classes);
+        // "batches": n loads the descriptions in n calls (one per metatypes file, as a library user may do); the answers must not depend on it
+        let batches = req["batches"].as_u64().unwrap_or(1).max(1) as usize;
+        if batches == 1 {
+            module_data.extend(classes);
+        } else {
+            let per = (classes.len() + batches - 1) / batches;
+            let mut rest = classes;
+            while !rest.is_empty() {
+                let tail = rest.split_off(per.max(1).min(rest.len()));
+                module_data.extend(rest);
+                rest = tail;
+            }
+        }
         type_map.insert_module(ModuleId::Named("m"), module_data);
         let mut answers = Vec::new();
         for (i, q) in req["queries"].as_array().expect("queries").iter().enumerate() {
